@@ -52,6 +52,7 @@ def valOf (t : String) : V :=
   | 'F' => .bool false
   | 'i' => .int (intOf body)
   | 'f' => .flt (intOf body)
+  | 'n' => .nan
   | 's' => .str (String.ofList (unhex body.toList))
   | 'l' => .list (body.toNat?.getD 0)
   | 'o' => match body.splitOn ":" with
